@@ -330,6 +330,8 @@ inductive AStep (s : Sh) (a : ATh) (s' : Sh) (a' : ATh) : Prop
       (hs : s' = { s with egc := s.egc.set n (g + 1) }) (ha : a' = { a with ph := .rvLoop d, rvDone := a.rvDone ++ [(n, g)] })
   | vHookFail (d n g : Nat) (hph : a.ph = .rvTok d n g) (hE : E s n ≠ g) (hs : s' = s)
       (ha : a' = { a with ph := .rvLoop d, rvDone := a.rvDone ++ [(n, g)] })
+  /-- the success hook of `recover` has nothing to do for a slot whose generation was even -/
+  | vHookSkip (d n g : Nat) (hph : a.ph = .rvTok d n g) (hs : s' = s) (ha : a' = { a with ph := .rvLoop d })
   | vEnd (d : Nat) (r' : RSh) (hph : a.ph = .rvLoop d) (hr : RFrame s.r r') (hs : s' = { s with r := r' }) (ha : a' = { a with ph := .rvFin })
   | vFin (b1 b2 : Bool) (hph : a.ph = .rvFin) (hb : b1 = true → b2 = false)
       (hs : s' = (fin { s with change := s.change + 1, removedDone := s.removedDone ++ a.rvDone } { a with rvDone := [] } b1 b2).1)
@@ -1074,9 +1076,15 @@ theorem step_ok (s : Sh) (t : Th) (q : PC) (hd : t.dead = false) (hg : t.gate = 
         · apply AStep.vVal d n g <;> axi
         · wfpc hw
   | rvHookDist p d m n g =>
-    refine ⟨?_, ?_⟩
-    · apply AStep.rstay s.r <;> axi
-    · wfpc hw
+    simp only [stepPC]
+    simp only [pcWf] at hq; subst hq
+    split
+    · refine ⟨?_, ?_⟩
+      · apply AStep.rstay s.r <;> axi
+      · wfpc hw
+    · refine ⟨?_, ?_⟩
+      · apply AStep.vHookSkip d n g <;> axi
+      · wfpc hw
   | rvHookCas p d m n g =>
     simp only [stepPC]
     simp only [pcWf] at hq; subst hq
